@@ -1,22 +1,26 @@
+"""Collects the MANIFEST entry of every built property module (py/props/cXX.py: MANIFEST dict)."""
+import importlib, os, sys
+HERE = os.path.dirname(os.path.abspath(__file__))
+sys.path.insert(0, HERE)
 HOOK_COMMITS = []
-ENGINES = [{
- "name": "lean4-proof+correspondence",
- "path": "check (py/run_check.py, py/props/*.py, lean/)",
- "serves_properties": [],
- "kind_free_text": "Lean 4 theorems over hand-written/regenerated executable models; model tied to /repo on every run by a differential correspondence run through the line-protocol driver (lean/Main.lean); failing-input search by property oracles on the implementation",
-}]
 NOTES = ("Every check: (1) regenerates extracted tables from /repo where the model has them, (2) lake build of Basyx.Props.<id> + "
          "#print axioms audit of every property theorem + forbidden-token grep, (3) correspondence run model vs implementation on "
          "generated cases, (4) property oracle on the implementation, (5) known findings, (6) evidence. Exit 2 = infrastructure error.")
 _PENDING = "check not yet built in this round (work in progress; the design in DESIGN.md §6 applies)"
-CHECKS = [
- {"id": "C19",
-  "text": "Lean theorems for ALL add/delete histories of the container model: bookkeeping invariant (refcounts = number of names per content, "
-          "no content dropped while named), refinement of every history to the abstract map name -> (bytes, content type) with identical "
-          "outputs, fresh-name/no-disturbance laws, termination of the conflict loop (pigeonhole over the injective _NNNN suffix). "
-          "The model is tied to the code by an exhaustive (short) + random (long) differential run after every call.",
-  "note": "sha256 assumed injective (modelled as identity); CPython dict semantics; harness/generators trusted; contents ASCII in the tie",
-  "technique": "Lean 4 proof: invariant by induction over operations + refinement to an abstract map; differential correspondence with the Python class"},
-]
-NOT_APPLICABLE = [{"property_id": f"C{n:02d}", "reason": _PENDING} for n in range(1, 21) if f"C{n:02d}" not in {c["id"] for c in CHECKS}]
-ENGINES[0]["serves_properties"] = [c["id"] for c in CHECKS]
+CHECKS = []
+NOT_APPLICABLE = []
+for n in range(1, 21):
+    pid = f"C{n:02d}"
+    path = os.path.join(HERE, "props", pid.lower() + ".py")
+    if os.path.exists(path):
+        mod = importlib.import_module("props." + pid.lower())
+        if getattr(mod, "MANIFEST", None) and not getattr(mod, "DISABLED", False):
+            CHECKS.append(dict(mod.MANIFEST, id=pid))
+            continue
+    NOT_APPLICABLE.append({"property_id": pid, "reason": _PENDING})
+ENGINES = [{
+ "name": "lean4-proof+correspondence",
+ "path": "check (py/run_check.py, py/props/*.py, lean/)",
+ "serves_properties": [c["id"] for c in CHECKS],
+ "kind_free_text": "Lean 4 theorems over hand-written/regenerated executable models; model tied to /repo on every run by a differential correspondence run through the line-protocol drivers (lean/Mains/*.lean); failing-input search by property oracles on the implementation",
+}]
